@@ -307,7 +307,7 @@ def merge(m, tier, seed):
                 break
     m["counters"]["hash_seed_log_pairs_compared"] = compared
     m["counters"]["hash_seeds"] = len(set(ex["hashseed"] for ex in m["extra"] if ex and "log" in ex))
-    if compared == 0:
+    if compared == 0 and by_slice:
         out.append({"clause": "hash_seed_comparison_did_not_happen", "cls": "", "mech": "", "detail": {}})
     return out
 
